@@ -66,11 +66,8 @@ example : (toOwned C01.exC 1).1 = [16, 17, 18, 19] := by decide
 
 /-- **text pin**: the generated functions this property's hand-written model describes have, in
     /repo today, exactly the text the model was written from (`Soa/Model/Pinned.lean`) -/
-theorem bodies_pinned :
-    Soa.Extracted.bodies.filter (fun r => Soa.Model.scopeOf r == "C15") =
-    Soa.Model.pinned.filter (fun r => Soa.Model.scopeOf r == "C15") := by decide +kernel
+theorem bodies_pinned : Soa.Extracted.bodies_C15 = Soa.Model.pinned_C15 := rfl
 
-theorem bodies_pinned_nonempty :
-    (Soa.Model.pinned.filter (fun r => Soa.Model.scopeOf r == "C15")).length ≥ 4 := by decide +kernel
+theorem bodies_pinned_nonempty : Soa.Model.pinned_C15.length ≥ 4 := by decide
 
 end Soa.C15
